@@ -196,7 +196,7 @@ def replay(cex):
 
 def run():
     obs, shapes, bmc_cfg, nb, t0, tier = c03.main("dominate", PID)
-    tmo = 240000 if tier == "quick" else 900000
+    tmo = 600000 if tier == "quick" else 1200000
     ind = []
     for (w, d, mkl) in shapes:
         for Ly in range(0, mkl + 1):
